@@ -105,7 +105,7 @@ func (c18) Gen(tier string, seed int64, emit func([]Ev)) {
 	r := rand.New(rand.NewSource(seed))
 	n := 500
 	if tier == "thorough" {
-		n = 8000
+		n = 60000
 	}
 	for i := 0; i < n; i++ {
 		ad := c18Adapters[r.Intn(4)]
